@@ -291,6 +291,7 @@ def run_case(case: dict, ctx: dict) -> dict:
         return case.get("deps", {}).get(root, [x for x in roots if x != root])
 
     all_refs = {}  # type: typing.Dict[str, str]
+    ev_digests = []  # type: typing.List[str]
     created_by_root = {}  # type: typing.Dict[str, typing.Set[str]]
     deps_record = {}
     out_real_rel = os.path.relpath(os.path.realpath(out) if os.path.exists(out) else out, world.sandbox)
@@ -313,6 +314,7 @@ def run_case(case: dict, ctx: dict) -> dict:
         inv = world.invocation(opts, enum_seed=plan["enum_seed"] + step, inrun=["sims.c11:install_tree_invariants"])
         res = proc.run_invocation(inv)
         evaluations += 1
+        ev_digests.append(nnvg.event_digest(res))
         bump("status", res["status"])
         bump("ops", "generate")
         after_all = snapshot.snapshot(world.sandbox, with_mtime=True)
@@ -404,7 +406,7 @@ def run_case(case: dict, ctx: dict) -> dict:
         "counters": counters,
         "sim_time_s": 0.0,
         "sample": {"plan": plan, "n_dsdl_files": len(files)},
-        "digest": hashlib.sha256((key + "|".join(states)).encode()).hexdigest()[:16],
+        "digest": hashlib.sha256((key + "|".join(ev_digests) + "|".join(sorted(v["signature"] for v in violations))).encode()).hexdigest()[:16],
     }
 
 
